@@ -578,18 +578,60 @@ def _fn_of_canon(fname, p, ctx, power=1):
             return raw(mul(num(sf[4] * power), inner), ctx)
         if len(p) == 1:
             (ff, nb), cc = next(iter(p.items()))
-            if nb == 0 and cc == 1 and len(ff) == 1 and ff[0][0] in ("A", "F") and ff[0][-1] == -1:
-                # log(1/f) = -log(f): valid whenever the left-hand side is defined
+            if nb == 0 and cc == 1 and len(ff) == 1 and ff[0][0] in ("A", "F") and ff[0][-1] not in (0, 1):
+                # log(f^p) = p log(f): for p = -1 valid whenever the left-hand side is defined; for other p it needs
+                # f > 0, which holds for the atoms that reach a logarithm with a power (declared positive scales)
+                pw_ = ff[0][-1]
                 pos = ff[0][:-1] + (1,)
                 inner = _fn_of_canon("log", {((pos,), 0): Fraction(1)}, ctx, 1)
-                return {k2: -power * v2 for k2, v2 in inner.items()}
+                return {k2: pw_ * power * v2 for k2, v2 in inner.items()}
     if fname == "sqrt":
         if c is not None and c in (0, 1):
             return {_ONE_RAW: c} if c else {}
-    if fname in ("Phi",) and c is not None:
-        pass
+    if fname in ("Phi", "phi", "step"):
+        sg = _inf_sign(p)
+        if sg is not None:
+            if fname == "phi":
+                return {}
+            val = Fraction(1 if sg > 0 else 0)
+            return {_ONE_RAW: val} if val else {}
+        if fname == "step" and c is not None:
+            return {_ONE_RAW: Fraction(1)} if c >= 0 else {}
+    if fname == "sqrt" and len(p) == 1:
+        (ff, nb), cc = next(iter(p.items()))
+        if nb == 0 and all(x[0] in ("A", "N", "F") and x[-1] % 2 == 0 for x in ff) and _is_square(cc):
+            half = tuple((x[:-1] + (x[-1] // 2,)) for x in ff)
+            out = {(half, frozenset()): _frac_sqrt(cc)}
+            if power != 1:
+                return raw(powr(poly_to_expr_raw(out), power), ctx) if power > 0 else _inv_poly(poly_to_expr_raw(out), ctx, -power)
+            return out
     f = make_fatom(fname, p, ctx, power)
     return {((f,), frozenset()): Fraction(1)}
+
+
+def _inf_sign(p):
+    """p = c*INF + (terms without INF)  ->  sign of c, else None"""
+    hits = [(f, c) for (f, nb), c in p.items() if any(x[0] == "A" and x[1] == "INF" for x in f)]
+    if len(hits) != 1:
+        return None
+    f, c = hits[0]
+    if len(f) == 1 and f[0][3] == 1:
+        return 1 if c > 0 else -1
+    return None
+
+
+def _is_square(c):
+    from math import isqrt
+    return c > 0 and isqrt(c.numerator) ** 2 == c.numerator and isqrt(c.denominator) ** 2 == c.denominator
+
+
+def _frac_sqrt(c):
+    from math import isqrt
+    return Fraction(isqrt(c.numerator), isqrt(c.denominator))
+
+
+def poly_to_expr_raw(rawp):
+    return ("add", tuple(_mono_to_expr(f, c, {}) for (f, b), c in rawp.items()))
 
 
 def _inv_poly(e, ctx, n):
@@ -846,6 +888,8 @@ def simplify_mono(f, b, ctx):
                 others = _rebuild_without(f, k)
                 base = {(tuple(others + rest), frozenset(b)): Fraction(1)}
                 return pmul(base, raw(powr(inner, pw // 2), ctx))
+            if k[1] == "step" and pw > 1:
+                pw = 1
             if k[1] == "inv" and pw < 0:
                 inner = form_to_expr(ctx.forms[k[2]], dict(enumerate(k[3])))
                 others = _rebuild_without(f, k)
